@@ -1478,6 +1478,7 @@ class TT():
             rmax (int, optional): the maximum rank. Defaults to the maximum possible integer.
 
         Raises:
+            InvalidArguments: The list of maximum ranks must have one entry per rank (d+1 entries).
             InvalidArguments: The maximum rank must be at least 1.
 
         Returns:
@@ -1487,6 +1488,8 @@ class TT():
         # rmax is not list
         if not isinstance(rmax, list):
             rmax = [1] + len(self.__N)*[rmax] + [1]
+        elif len(rmax) != len(self.__N)+1:
+            raise InvalidArguments('The list of maximum ranks must have one entry per rank (d+1 entries).')
 
         if min(rmax) < 1:
             raise InvalidArguments('The maximum rank must be at least 1.')
